@@ -1,6 +1,6 @@
 """Contracts of HTMLDocument (C11, C08): the html/head/body tree, hoisting of dependencies into <head>, render()."""
 import z3
-from ..contracts_api import Contract, FindFirst, MapComp
+from ..contracts_api import Contract, FindFirst, MapComp, DiffSpec
 
 CORE = "htmltools._core."
 DOC = CORE + "HTMLDocument."
@@ -35,6 +35,10 @@ def register(db):
     c = Contract(name=DOC + "_gen_html_tag_tree", params=[("self", "Any"), ("lib_prefix", "OptStr"), ("include_version", "Bool")], returns="Node", props=P,
                  note="self._content : NodeList and self._html_attr_args : dict are read-only; result == docTree(content, attrs, lib_prefix, include_version)")
     c.harness, c.pure = gen_tree_harness, True
+    c.diff = DiffSpec(params=[("content", "NodeList"), ("attrs", "ArgDict"), ("lp", "OptStr"), ("iv", "Bool")], gen=_doc_gen,
+                      steps=lambda v: [{"let": "doc", "call": "htmltools._core.HTMLDocument", "star": v["content"], "starkw": v["attrs"]},
+                                       {"let": "r", "method": ["doc", "_gen_html_tag_tree"], "args": [v["lp"], v["iv"]]}],
+                      expected="docTree(content, attrs, lp, iv)", raises=[("TypeError", "docRaises(content, attrs)")], ret_sort="Node")
     c.call_model = gen_tree_call_model
     c.lemmas = [("L_nodes_ofNodes_any", {}), ("L_underscore_noop", {})]
     db.add(c)
@@ -42,8 +46,47 @@ def register(db):
     c2 = Contract(name=DOC + "render", params=[("self", "Any"), ("lib_prefix", "OptStr"), ("include_version", "Bool")], returns="Rendered", props=P,
                   note="result == Rendered(resolved dependencies of the final tree, '<!DOCTYPE html>\\n' + its markup)")
     c2.harness, c2.pure = render_harness, True
+    c2.diff = DiffSpec(params=[("content", "NodeList"), ("attrs", "ArgDict"), ("lp", "OptStr"), ("iv", "Bool")], gen=_doc_gen,
+                       steps=lambda v: [{"let": "doc", "call": "htmltools._core.HTMLDocument", "star": v["content"], "starkw": v["attrs"]},
+                                        {"let": "r", "method": ["doc", "render"], "kwargs": {"lib_prefix": v["lp"], "include_version": v["iv"]}},
+                                        {"let": "h", "op": "getitem", "args": [{"$": "var", "name": "r"}, "html"]}],
+                       expected="docRender(content, attrs, lp, iv).html", raises=[("TypeError", "docRaises(content, attrs)"), ("RuntimeError", "hasObT(tagifyT(docTree(content, attrs, lp, iv)))")],
+                       ret_sort="Str")
     c2.lemmas = [("L_tagify_fixed_doc", {})]
     db.add(c2)
+
+
+def _doc_gen(g):
+    """targeted inputs for the document functions: the three shapes of content, with dependencies directly in the tree and
+    inside the expansions of tagifiable objects, a <head> in any child position"""
+    from ..replay import mk_list
+    from ..speclang import REG
+    C = {n: c.pyclass for n, c in REG.ctors.items()}
+    r = g.r
+    saved = dict(g.atoms)
+    g.atoms = dict(g.atoms, allow_ob=True)
+    try:
+        def kids(n):
+            return [g.gen("Node", 1) for _ in range(n)]
+        shape = r.choice(["html", "html", "html+head", "body", "list", "list", "one"])
+        if shape == "html":
+            content = [C["El"]("html", True, g.gen("AttrList"), mk_list("NodeList", kids(r.choice([0, 1, 2, 3]))))]
+        elif shape == "html+head":
+            ks = kids(r.choice([0, 1, 2]))
+            head = C["El"]("head", True, mk_list("AttrList", []), mk_list("NodeList", kids(r.choice([0, 1, 2]))))
+            ks.insert(r.randint(0, len(ks)), head)
+            if r.random() < 0.2:
+                ks.append(C["El"]("head", True, mk_list("AttrList", []), mk_list("NodeList", [])))
+            content = [C["El"]("html", r.random() < 0.8, g.gen("AttrList"), mk_list("NodeList", ks))]
+        elif shape == "body":
+            content = [C["El"]("body", r.random() < 0.8, g.gen("AttrList"), mk_list("NodeList", kids(r.choice([0, 1, 2, 3]))))]
+        elif shape == "one":
+            content = [g.gen("Node", 2)]
+        else:
+            content = kids(r.choice([0, 1, 2, 3]))
+        return {"content": mk_list("NodeList", content), "attrs": g.gen("ArgDict", 1), "lp": g.gen("OptStr"), "iv": r.random() < 0.5}
+    finally:
+        g.atoms = saved
 
 
 def _doc_self(I):
